@@ -63,6 +63,7 @@ enum LEv {
 
 fn link_trace(run: &mut Run, rng: &mut Rng, case: u64) -> anyhow::Result<()> {
     let seed = run.seed ^ (case << 8) ^ 0x09;
+    run.mark(&format!("scenario link_trace case {case} seed {} (re-run with ./check <property> --seed <seed>)", run.seed));
     let t_idle = 3000 + rng.below(4) * 1000;
     // script
     let mut evs: Vec<LEv> = vec![];
@@ -94,6 +95,69 @@ fn link_trace(run: &mut Run, rng: &mut Rng, case: u64) -> anyhow::Result<()> {
         } else {
             evs.push(LEv::Rpc(rng.below(2) as usize, t));
         }
+    }
+    // keep every event clear of the idle-timer instants (+-300 ms): whether an end is still alive at an
+    // event that falls within a few ms of its deadline depends on trailing ACKs, not on the logic under
+    // test.  (A mirror of the timer rules used only to place events; the verdict comes from the Lean model.)
+    {
+        let (mut alive, mut dl, mut sent) = ([true, true], [t_idle + 4, t_idle + 4], [false, false]);
+        let mut open = true;
+        let mut shift = 0u64;
+        for e in evs.iter_mut() {
+            let t0 = match e {
+                LEv::Rpc(_, t) | LEv::Disc(_, t) | LEv::Cut(t) | LEv::Heal(t) => *t,
+            } + shift;
+            let mut t = t0;
+            loop {
+                let near = (0..2).filter(|x| alive[*x] && dl[*x] + 300 > t && dl[*x] < t + 300).map(|x| dl[x]).max();
+                match near {
+                    Some(d) => t = d + 350,
+                    None => break,
+                }
+                for x in 0..2 {
+                    if alive[x] && dl[x] <= t {
+                        alive[x] = false;
+                    }
+                }
+            }
+            for x in 0..2 {
+                if alive[x] && dl[x] <= t {
+                    alive[x] = false;
+                }
+            }
+            shift += t - t0;
+            match e {
+                LEv::Cut(tt) => {
+                    *tt = t;
+                    open = false;
+                }
+                LEv::Heal(tt) => {
+                    *tt = t;
+                    open = true;
+                }
+                LEv::Rpc(w, tt) => {
+                    *tt = t;
+                    let w = *w;
+                    if alive[w] {
+                        if open && alive[1 - w] {
+                            dl = [t + t_idle, t + t_idle];
+                            sent = [false, false];
+                        } else if !sent[w] {
+                            dl[w] = t + t_idle;
+                            sent[w] = true;
+                        }
+                    }
+                }
+                LEv::Disc(w, tt) => {
+                    *tt = t;
+                    alive[*w] = false;
+                    if open {
+                        alive[1 - *w] = false;
+                    }
+                }
+            }
+        }
+        t = evs.iter().map(|e| match e { LEv::Rpc(_, t) | LEv::Disc(_, t) | LEv::Cut(t) | LEv::Heal(t) => *t }).max().unwrap_or(t);
     }
     let end = t + 2 * t_idle + 1000;
     let evs2 = evs.clone();
@@ -187,6 +251,7 @@ struct VNode {
 
 fn network_history(run: &mut Run, rng: &mut Rng, case: u64) -> anyhow::Result<()> {
     let seed = run.seed ^ (case << 8) ^ 0x99;
+    run.mark(&format!("scenario network_history case {case} seed {} (re-run with ./check <property> --seed <seed>)", run.seed));
     let n = 3 + rng.below(2) as usize;
     let t_idle = 4000u64;
     let ka: Option<u64> = if rng.chance(3, 4) { Some(1000) } else { None };
